@@ -687,7 +687,19 @@ class Sym(numbers.Number):
     def __floor__(self):
         if self.isint:
             return self
-        return Sym(z3.ToInt(self.z))
+        v = _numval(z3.simplify(self.z))
+        if v is not None:
+            return Sym(z3.IntVal(math.floor(v)))
+        # fresh integer with its defining inequalities (total function: always satisfiable);
+        # z3 decides this LIRA form far more reliably than to_int terms
+        key = ('floor', self.z.get_id())
+        if key in ENG.uf_memo:
+            return ENG.uf_memo[key][1]
+        f = ENG.fresh_int('floor')
+        ENG.assumes.append(z3.And(z3.ToReal(f) <= self.z, self.z < z3.ToReal(f) + 1))
+        r = Sym(f)
+        ENG.uf_memo[key] = (self, r)
+        return r
 
     def floor(self):
         return self.__floor__()
@@ -695,7 +707,7 @@ class Sym(numbers.Number):
     def __ceil__(self):
         if self.isint:
             return self
-        return Sym(-z3.ToInt(-self.z))
+        return -((-self).__floor__())
 
     def ceil(self):
         return self.__ceil__()
@@ -703,7 +715,7 @@ class Sym(numbers.Number):
     def rint(self):
         if self.isint:
             return self
-        f = z3.ToInt(self.z)
+        f = self.__floor__().z
         r = self.z - z3.ToReal(f)
         half = z3.RealVal('1/2')
         return Sym(z3.If(r < half, f, z3.If(r > half, f + 1, z3.If(f % 2 == 0, f, f + 1))))
@@ -716,7 +728,7 @@ class Sym(numbers.Number):
     def __trunc__(self):
         if self.isint:
             return self
-        return Sym(z3.If(self.z >= 0, z3.ToInt(self.z), -z3.ToInt(-self.z)))
+        return Sym(z3.If(self.z >= 0, self.__floor__().z, (-((-self).__floor__())).z))
 
     # ---- transcendental (contracts, DESIGN 1.4)
     def sqrt(self):
